@@ -827,6 +827,9 @@ class UTPM(Ring, RawAlgorithmsMixIn):
         x (a parameter of higher rank must not be aligned with the direction
         axis); returns (x_data, param_1, param_2, ...)
         """
+        # (array_like parameters: lists and tuples count as arrays)
+        params = tuple(numpy.asarray(a) if isinstance(a, (list, tuple)) else a
+                       for a in params)
         shp = x_data.shape[2:]
         arrs = [a for a in params if isinstance(a, numpy.ndarray)]
         target = numpy.broadcast_shapes(shp, *[a.shape for a in arrs])
